@@ -53,6 +53,29 @@ def ref_path(r, doc):
     return p
 
 
+def same_base_leaves(r, doc):
+    """Two or three path arguments derived from the SAME base path with different modifiers."""
+    base = ref_path(r, doc)
+    sel = model.ref_select(base.parts, doc)
+    conc = model.is_concrete(base.parts)
+    datums = [None] + [x for x in ("length", "dtype", "map_keys", "map_values") if sel and all(model.datum_defined(x, n) for n, _ in sel)]
+    multis = [None] if conc or not sel else [None, "first", "last", "all"]
+
+    def variant():
+        return PathT(list(base.parts), r.choice(datums), r.choice(multis), r.choice(["dm", "md"]))
+
+    c = r.pct()
+    if c < 40:
+        return Op(r.choice(["and", "or", "xor"]),
+                  Leaf("value", r.choice([None, "length"]), r.choice(["equal_to", "less_than_or_equal_to", "not_equal_to"]), kwargs={"value": variant()}),
+                  Leaf("value", None, r.choice(["equal_to", "in_", "not_equal_to"]), kwargs={"value": variant()}))
+    if c < 70:
+        return Leaf("value", None, r.choice(["keys_contain_N_of", "keys_contain_at_least_N_of"]), kwargs={"N": variant(), "keys": variant()})
+    if c < 85:
+        return Leaf("value", None, "equal_to_approx", kwargs={"value": variant(), "tolerance": variant()})
+    return Leaf("value", None, r.choice(["required_keys", "keys_contain_any_of"]), args=(variant(), variant()))
+
+
 def gen_leaf_with_paths(r, doc):
     c = r.pct()
     if c < 50:
@@ -142,7 +165,7 @@ def gen_case(r):
         tested = model.ref_select(p.parts, d) if p.parts else []
         leaf = related_leaf(r, d, tested)
     if leaf is None:
-        leaf = gen_leaf_with_paths(r, d)
+        leaf = same_base_leaves(r, d) if r.pct() < 22 else gen_leaf_with_paths(r, d)
     t = leaf
     if r.coin(35):
         o = G.tree(r, ("value",), "typed", 1, meaningful=True) if r.coin() else gen_leaf_with_paths(r, d)
@@ -189,7 +212,8 @@ def body(case):
                 warnings.simplefilter("ignore")
                 R = ns.r.Rule.from_spec(copy.deepcopy(spec))
         else:
-            R = build.build_rule(rule)
+            with build.sharing():  # path arguments with the same parts derive from one base object
+                R = build.build_rule(rule)
         Rlit = build.build_rule(rule_lit)
     except Exception as e:
         out.exc("build", e)
